@@ -605,6 +605,52 @@ class Slice:
         return out
 
 
+def influence(f, operand, exclude_test=None, max_rounds=50):
+    """Everything that can influence the value of `operand` in body f: the data slice (through all calls and aggregates, hence
+    closure captures) plus, for every definition visited, the operands of the tests it is control-dependent on (transitively),
+    except tests for which exclude_test(block) holds (loop-iteration tests, error / early exits).
+    Returns {'fields': set, 'calls': set of callees, 'args': set, 'tests': set of blocks}."""
+    sl = Slice(f, through_all_calls=True)
+    fields, calls, args, tests = set(), set(), set(), set()
+    seen_ops = []
+    work = [operand]
+    seen_locals = set()
+    seen_blocks = set()
+    defs = f.defs()
+    rounds = 0
+    while work and rounds < max_rounds * 50:
+        rounds += 1
+        o = work.pop()
+        for x in sl.sources(o):
+            if x[0] == "field":
+                fields.update(x[2])
+            elif x[0] == "call":
+                calls.add(callee_of(x[2]))
+            elif x[0] == "arg":
+                args.add(x[1])
+            elif x[0] == "agg" and x[3].get("closure"):
+                calls.add(x[3]["closure"])
+        new_locals = set(sl.last_locals) - seen_locals
+        seen_locals |= new_locals
+        for l in new_locals:
+            for d in defs.get(l, ()):
+                b = d["b"]
+                if b in seen_blocks:
+                    continue
+                seen_blocks.add(b)
+                for (a, succ) in f.control_deps_transitive(b):
+                    if a in tests:
+                        continue
+                    t = f.blocks[a]["term"]
+                    if t["k"] != "switch":
+                        continue
+                    if exclude_test is not None and exclude_test(a):
+                        continue
+                    tests.add(a)
+                    work.append(t["on"])
+    return {"fields": fields, "calls": calls, "args": args, "tests": tests}
+
+
 class Program:
     def __init__(self, docs):
         self.docs = docs
